@@ -8,14 +8,17 @@ import (
 	"go/token"
 	"go/types"
 	"golang.org/x/tools/go/packages"
+	"math/big"
 	"sort"
 	"strings"
 
 	"golang.org/x/tools/go/ssa"
 
+	"verif/checker/internal/dtab"
 	"verif/checker/internal/load"
 	"verif/checker/internal/modsum"
 	"verif/checker/internal/report"
+	"verif/checker/internal/sym"
 )
 
 // sharedWritesAtGo reports unprotected writes to memory shared between the instances of a
@@ -1309,7 +1312,407 @@ func (c *Ctx) comparators() {
 		}
 	}
 	run.Count("comparators", n)
-	run.Floor("comparators", 2)
+	run.Floor("comparators", 1)
+	c.rankingOrder()
+	c.accumulatorsReset()
+}
+
+// accumulatorsReset: what a report accumulates during a run starts empty in every run. For every
+// implementation of backtest.Report, a slice field the methods append to (x.F = append(x.F, ..))
+// is given a fresh empty slice by Begin, and a map element they append to (x.F[k] = append(x.F[k],
+// ..)) is given one by AssetBegin. A second run on the same report object otherwise ranks this
+// run's results together with the previous run's: an asset is listed once per run so far.
+func (c *Ctx) accumulatorsReset() {
+	run := c.Run
+	bp := c.P.Pkg("backtest")
+	if bp == nil {
+		return
+	}
+	info := bp.TypesInfo
+	n := 0
+	for _, nm := range c.implementers("backtest", "Report") {
+		if nm.Obj().Pkg() != bp.Types {
+			continue
+		}
+		type acc struct {
+			field   string
+			element bool
+			pos     token.Pos
+		}
+		var accs []acc
+		seen := map[string]bool{}
+		var methods []*load.FuncInfo
+		for _, fi := range c.P.Decls {
+			if fi.Pkg == bp && fi.Decl.Recv != nil && fi.Decl.Body != nil && recvTypeName(fi) == nm.Obj().Name() {
+				methods = append(methods, fi)
+			}
+		}
+		for _, fi := range methods {
+			ast.Inspect(fi.Decl.Body, func(nd ast.Node) bool {
+				as, ok := nd.(*ast.AssignStmt)
+				if !ok || len(as.Lhs) != 1 || len(as.Rhs) != 1 {
+					return true
+				}
+				call, isCall := as.Rhs[0].(*ast.CallExpr)
+				if !isCall || len(call.Args) < 2 {
+					return true
+				}
+				if id, isID := call.Fun.(*ast.Ident); !isID || id.Name != "append" {
+					return true
+				}
+				if _, isB := info.Uses[call.Fun.(*ast.Ident)].(*types.Builtin); !isB {
+					return true
+				}
+				if exprString(as.Lhs[0]) != exprString(call.Args[0]) {
+					// or a local read from the same place: results, ok := x.F[k]; x.F[k] = append(results, ..)
+					same := false
+					if id, isID := call.Args[0].(*ast.Ident); isID {
+						obj := info.ObjectOf(id)
+						ast.Inspect(fi.Decl.Body, func(q ast.Node) bool {
+							if d, isAs := q.(*ast.AssignStmt); isAs && len(d.Rhs) == 1 && len(d.Lhs) >= 1 {
+								if lid, isL := d.Lhs[0].(*ast.Ident); isL && info.ObjectOf(lid) == obj && exprString(d.Rhs[0]) == exprString(as.Lhs[0]) {
+									same = true
+								}
+							}
+							return true
+						})
+					}
+					if !same {
+						return true
+					}
+				}
+				l := ast.Unparen(as.Lhs[0])
+				element := false
+				if ix, isIx := l.(*ast.IndexExpr); isIx {
+					if _, isMap := info.TypeOf(ix.X).Underlying().(*types.Map); isMap {
+						element = true
+						l = ast.Unparen(ix.X)
+					}
+				}
+				sel, isSel := l.(*ast.SelectorExpr)
+				if !isSel {
+					return true
+				}
+				if v, isField := info.ObjectOf(sel.Sel).(*types.Var); !isField || !v.IsField() {
+					return true
+				}
+				key := fmt.Sprint(sel.Sel.Name, element)
+				if !seen[key] {
+					seen[key] = true
+					accs = append(accs, acc{sel.Sel.Name, element, as.Pos()})
+				}
+				return true
+			})
+		}
+		for _, a := range accs {
+			n++
+			where := "Begin"
+			if a.element {
+				where = "AssetBegin"
+			}
+			site := "backtest.(" + nm.Obj().Name() + ")." + where
+			fi := c.methodDecl(nm, where)
+			good := false
+			if fi != nil {
+				for _, body := range c.familyBodies(fi) {
+					ast.Inspect(body, func(nd ast.Node) bool {
+						as, ok := nd.(*ast.AssignStmt)
+						if !ok || len(as.Lhs) != len(as.Rhs) {
+							return true
+						}
+						for i, l := range as.Lhs {
+							l = ast.Unparen(l)
+							if a.element {
+								ix, isIx := l.(*ast.IndexExpr)
+								if !isIx {
+									continue
+								}
+								l = ast.Unparen(ix.X)
+							}
+							sel, isSel := l.(*ast.SelectorExpr)
+							if !isSel || sel.Sel.Name != a.field {
+								continue
+							}
+							rhs := ast.Unparen(as.Rhs[i])
+							if id, isID := rhs.(*ast.Ident); isID {
+								if d, single := singleDefs(info, body)[info.ObjectOf(id)]; single {
+									rhs = ast.Unparen(d)
+								}
+							}
+							if emptySliceExpr(info, rhs) {
+								good = true
+							}
+						}
+						return true
+					})
+				}
+			}
+			run.Oblige(good)
+			if !good {
+				what := nm.Obj().Name() + "." + a.field
+				if a.element {
+					what += "[asset]"
+				}
+				pos := a.pos
+				if fi != nil {
+					pos = fi.Decl.Pos()
+				}
+				c.violate("backtest/reset", site, a.field, pos, what+" is appended to during a run but "+where+" does not start it as a fresh empty slice: a second run on the same report keeps the previous run's results, and the rankings list them again")
+			}
+		}
+	}
+	run.Count("report_accumulators", n)
+	run.Floor("report_accumulators", 3)
+}
+
+// rankingOrder: "the rankings list results in non-increasing outcome order, so the entry presented
+// as best has the maximal outcome". Every ordering function handed to a sort in package backtest
+// is evaluated, as a decision table, on the three orderings of the outcomes of its two arguments:
+// it must put the larger outcome first (positive when a < b, zero when equal, negative when
+// a > b) and read nothing but the outcome. After the sort, the sorted slice is indexed only by 0
+// or by a range key (the entry presented as best is the first).
+func (c *Ctx) rankingOrder() {
+	run := c.Run
+	bp := c.P.Pkg("backtest")
+	if bp == nil {
+		return
+	}
+	info := bp.TypesInfo
+	sites, methods := 0, 0
+	isSort := func(call *ast.CallExpr) bool {
+		name := calleeName(info, call)
+		return strings.HasPrefix(name, "slices.SortFunc") || strings.HasPrefix(name, "slices.SortStableFunc") || strings.HasPrefix(name, "sort.Slice")
+	}
+	// after a sort the sorted slice is indexed by 0 or a range key only
+	picks := func(fd *ast.FuncDecl, site string, call *ast.CallExpr, sorted string) {
+		var stack []ast.Node
+		ast.Inspect(fd.Body, func(q ast.Node) bool {
+			if q == nil {
+				stack = stack[:len(stack)-1]
+				return true
+			}
+			stack = append(stack, q)
+			ix, isIx := q.(*ast.IndexExpr)
+			if !isIx || ix.Pos() < call.End() || exprString(ix.X) != sorted {
+				return true
+			}
+			for _, p := range stack {
+				if rs, isR := p.(*ast.RangeStmt); isR && exprString(rs.X) == sorted {
+					if k, ok := rs.Key.(*ast.Ident); ok {
+						if id, ok := ix.Index.(*ast.Ident); ok && info.ObjectOf(id) == info.ObjectOf(k) {
+							return true
+						}
+					}
+				}
+			}
+			v, isC := constInt(info, ix.Index)
+			good := isC && v == 0
+			run.Oblige(good)
+			if !good {
+				c.violate("backtest/ranking", site, "pick "+exprString(ix), ix.Pos(), "after the sort the entry taken from the ranking is "+exprString(ix)+", not the first: the entry presented as best must have the maximal outcome")
+			}
+			return true
+		})
+	}
+	for _, fi := range c.P.Decls {
+		if fi.Pkg != bp || fi.Decl.Body == nil || strings.HasSuffix(c.P.Fset.Position(fi.Decl.Pos()).Filename, "_test.go") {
+			continue
+		}
+		// the exported entry points that rank (the sort may sit in an unexported helper)
+		if fi.Fn.Exported() {
+			ranks := false
+			for _, body := range c.familyBodies(fi) {
+				ast.Inspect(body, func(n ast.Node) bool {
+					if call, ok := n.(*ast.CallExpr); ok && isSort(call) {
+						ranks = true
+					}
+					return !ranks
+				})
+			}
+			if ranks {
+				methods++
+			}
+		}
+		fd := fi.Decl
+		site := "backtest." + fd.Name.Name
+		ast.Inspect(fd.Body, func(n ast.Node) bool {
+			call, ok := n.(*ast.CallExpr)
+			if ok && !isSort(call) {
+				// a helper of the package that sorts the slice handed to it
+				if fn := callee(info, call); fn != nil {
+					if d := c.P.Decls[fn.Origin()]; d != nil && d.Pkg == bp && d.Decl.Body != nil {
+						idx := 0
+						for _, f := range d.Decl.Type.Params.List {
+							for _, nm := range f.Names {
+								pobj := info.ObjectOf(nm)
+								sortsParam := false
+								ast.Inspect(d.Decl.Body, func(q ast.Node) bool {
+									if sc, isC := q.(*ast.CallExpr); isC && isSort(sc) && len(sc.Args) >= 1 {
+										if id, isID := sc.Args[0].(*ast.Ident); isID && info.ObjectOf(id) == pobj {
+											sortsParam = true
+										}
+									}
+									return !sortsParam
+								})
+								if sortsParam && idx < len(call.Args) {
+									picks(fd, site, call, exprString(call.Args[idx]))
+								}
+								idx++
+							}
+						}
+					}
+				}
+				return true
+			}
+			if !ok || len(call.Args) != 2 {
+				return true
+			}
+			if strings.HasPrefix(calleeName(info, call), "sort.Slice") {
+				// an index-based less function: not the form the bundled code uses; undecided
+				run.Oblige(false)
+				c.violate("backtest/ranking", site, "sort.Slice", call.Pos(), "the ranking is sorted through an index-based less function: the order is undecided (fails closed)")
+				return true
+			}
+			sites++
+			var m *dtab.Machine
+			switch x := ast.Unparen(call.Args[1]).(type) {
+			case *ast.FuncLit:
+				m = dtab.FromFuncLit(info, x)
+			case *ast.Ident:
+				if fn, isFn := info.Uses[x].(*types.Func); isFn {
+					if d := c.P.Decls[fn.Origin()]; d != nil && d.Decl.Body != nil && d.Pkg == bp {
+						m = dtab.FromFuncDecl(info, d.Decl)
+					}
+				}
+			}
+			why := ""
+			switch {
+			case m == nil:
+				why = "the ordering function is not a function literal or a function of the package (undecided, fails closed)"
+			case len(m.Unsupported) > 0 || len(m.State) > 0 || len(m.Params) != 2:
+				why = "the ordering function is not a loop-free, effect-free function of its two arguments (undecided, fails closed)"
+			}
+			if why == "" {
+				a, b := m.Params[0], m.Params[1]
+				fa, fb := "", ""
+				for _, r := range m.Reads {
+					switch {
+					case strings.HasPrefix(r, a+"."):
+						if fa != "" && fa != r[len(a)+1:] {
+							why = "the ordering function reads more than one field of its arguments"
+						}
+						fa = r[len(a)+1:]
+					case strings.HasPrefix(r, b+"."):
+						if fb != "" && fb != r[len(b)+1:] {
+							why = "the ordering function reads more than one field of its arguments"
+						}
+						fb = r[len(b)+1:]
+					default:
+						why = "the ordering function depends on " + r + ", not only on the two results compared"
+					}
+				}
+				if why == "" && (fa != fb || fa != "Outcome") {
+					why = fmt.Sprintf("the ordering function compares %s.%s with %s.%s: the rankings are by outcome", a, fa, b, fb)
+				}
+				if why == "" {
+					for _, tc := range []struct {
+						va, vb int64
+						want   int
+						text   string
+					}{{0, 1, 1, "a's outcome below b's: b must come first (positive)"}, {1, 1, 0, "equal outcomes: zero"}, {1, 0, -1, "a's outcome above b's: a must come first (negative)"}} {
+						env := map[string]sym.Expr{a + "." + fa: sym.N(tc.va), b + "." + fb: sym.N(tc.vb)}
+						ps, ok := m.Select(env, numOracle)
+						got, decided := 0, false
+						if ok && len(ps) == 1 && len(ps[0].Ret) == 1 {
+							if v, okv := evalRat(ps[0].Ret[0], env); okv {
+								got, decided = v.Sign(), true
+							}
+						}
+						if !decided {
+							why = "the value of the ordering function is undecided for " + tc.text + " (fails closed)"
+							break
+						}
+						if got != tc.want {
+							why = fmt.Sprintf("%s, but the ordering function returns a value of sign %d: the ranking is not in non-increasing outcome order", tc.text, got)
+							break
+						}
+					}
+				}
+			}
+			run.Oblige(why == "")
+			if why != "" {
+				c.violate("backtest/ranking", site, "order of "+short(exprString(call.Args[0]), 40), call.Pos(), why)
+			}
+			picks(fd, site, call, exprString(call.Args[0]))
+			return true
+		})
+	}
+	run.Count("ranking_sorts", sites)
+	run.Floor("ranking_sorts", 1)
+	run.Count("ranking_entry_points", methods)
+	run.Floor("ranking_entry_points", 2)
+}
+
+// evalRat evaluates a numeric decision-table term under an assignment of numbers.
+func evalRat(e sym.Expr, env map[string]sym.Expr) (*big.Rat, bool) {
+	switch x := e.(type) {
+	case sym.Num:
+		return x.V, true
+	case sym.Var:
+		if v, ok := env[x.Name]; ok {
+			if _, same := v.(sym.Var); !same {
+				return evalRat(v, env)
+			}
+		}
+		return nil, false
+	case sym.Neg:
+		v, ok := evalRat(x.X, env)
+		if !ok {
+			return nil, false
+		}
+		return new(big.Rat).Neg(v), true
+	case sym.Bin:
+		l, ok1 := evalRat(x.L, env)
+		r, ok2 := evalRat(x.R, env)
+		if !ok1 || !ok2 {
+			return nil, false
+		}
+		switch x.Op {
+		case "+":
+			return new(big.Rat).Add(l, r), true
+		case "-":
+			return new(big.Rat).Sub(l, r), true
+		case "*":
+			return new(big.Rat).Mul(l, r), true
+		case "/":
+			if r.Sign() == 0 {
+				return nil, false
+			}
+			return new(big.Rat).Quo(l, r), true
+		}
+	case sym.Call:
+		if (x.Fn == "cmp.Compare" || strings.HasSuffix(x.Fn, ".Compare")) && len(x.Args) == 2 {
+			l, ok1 := evalRat(x.Args[0], env)
+			r, ok2 := evalRat(x.Args[1], env)
+			if ok1 && ok2 {
+				return big.NewRat(int64(l.Cmp(r)), 1), true
+			}
+		}
+		if x.Fn == "trunc" && len(x.Args) == 1 {
+			if v, ok := evalRat(x.Args[0], env); ok {
+				q := new(big.Int).Quo(v.Num(), v.Denom())
+				return new(big.Rat).SetInt(q), true
+			}
+		}
+	case sym.Ite:
+		if cv, ok := dtab.EvalBool(x.Cond, env, numOracle); ok {
+			if cv {
+				return evalRat(x.A, env)
+			}
+			return evalRat(x.B, env)
+		}
+	}
+	return nil, false
 }
 
 // sliceBounds: "no run crashes" - every index into a slice in the backtest package (reports,
